@@ -99,15 +99,9 @@ package absnfs
 //@ abstract
 //@ requires pm != nil
 
-// The per-connection request loop is outside this group of contracts. What is relied on here is only the
-// monitor invariant of s.connMutex (connInv, re-established by every critical section proved under C17)
-// and that the live tuning snapshot stays non-nil (C24): assumption A-LOCKINV.
-//@ func Server.handleConnectionLoop
-//@ prop C28 C17
-//@ assumed
-//@ requires s != nil
-//@ modifies everything
-//@ ensures connInv(s) && (s.handler != nil ==> curTuning(s.handler) != nil)
+// The per-connection request loop is under contract in zz_contracts_connloop_verif.go; what is relied on here (the
+// monitor invariant of s.connMutex and the live tuning snapshot staying non-nil, A-LOCKINV) is a free (assumed,
+// never checked) postcondition there.
 
 //@ func Server.handleConnection
 //@ prop C28 C17
